@@ -99,9 +99,12 @@ def enum_cases(prop, harness, bases, tier, scratch, mk=lambda name, lines, base:
         if st["bases"] >= want:
             break
         name, lines = base[0], base[1]
+        npts = len(_run(harness, lines, (), scratch, 75))
+        if npts < 1 or npts > 300:
+            continue        # single-threaded (nothing to enumerate) or too long for a systematic sweep (left to the random schedules)
         scheds, s = explore(harness, lines, bound, budget, scratch)
         if len(scheds) < 2:
-            continue        # a single-threaded scenario: nothing to enumerate
+            continue
         st["bases"] += 1
         st["schedules"] += len(scheds)
         st["per_base"][name] = {"schedules": len(scheds), "choice_points": s["max_choice_points"], "complete_within_bound": not s["truncated"]}
